@@ -6,7 +6,7 @@ import ast
 from .. import sym as S
 from ..engine import HOLDS, UNDECIDED, VIOLATED, Check
 from ..loader import AnalysisError
-from ..rulelib import (_byte_to_sector, _typestate, _ValSub, all_alternatives_are_field, appends_in, cmp_subject, decision_fields, decision_on, calls_named, carried_with_entry, check_const, check_layout, check_typestate,
+from ..rulelib import (split_alternatives, _byte_to_sector, _typestate, _ValSub, all_alternatives_are_field, appends_in, cmp_subject, decision_fields, decision_on, calls_named, carried_with_entry, check_const, check_layout, check_typestate,
                        conds_sym, eval_conds, fld, insts_in_func, inst_attr, loop_carried, loops_of, same_handle,
                        self_stores, spec_expr, zeros_len)
 
@@ -74,15 +74,20 @@ def run(chk: Check):
     # returned footer: the function returns an instance of footer
     # ---- VHD.__init__: fixed / dynamic dispatch ----------------------------------------------
     ctx = chk.func(REL, "VHD.__init__")
-    news = [n for n in ast.walk(ctx.func) if isinstance(n, ast.Call) and R.expr(ctx, n)[0] == "call" and R.expr(ctx, n)[1].startswith("new:")]
+    # every construction of a reader, with the alternatives of a conditional (class or call) split into their own conditions
     table = {}
     key = ("footer", 16)
-    for n in news:
-        cls = R.expr(ctx, n)[1].split("::")[-1]
-        conds = conds_sym(chk, ctx, n)
-        for v, hit in decision_fields(conds, key, (0, 512, 0xFFFFFFFF, 0xFFFFFFFFFFFFFFFE, 0xFFFFFFFFFFFFFFFF)).items():
-            if hit:
-                table.setdefault(v, []).append(cls)
+    for n in ast.walk(ctx.func):
+        if not isinstance(n, ast.Call):
+            continue
+        t = R.expr(ctx, n, ctx.cfg.node_for(n))
+        for extra, alt in split_alternatives(t):
+            if alt[0] == "call" and alt[1].startswith("new:"):
+                cls = alt[1].split("::")[-1]
+                conds = conds_sym(chk, ctx, n) + list(extra)
+                for v, hit in decision_fields(conds, key, (0, 512, 0xFFFFFFFF, 0xFFFFFFFFFFFFFFFE, 0xFFFFFFFFFFFFFFFF)).items():
+                    if hit:
+                        table.setdefault(v, []).append(cls)
     want_t = {0: ["DynamicDisk"], 512: ["DynamicDisk"], 0xFFFFFFFF: ["DynamicDisk"], 0xFFFFFFFFFFFFFFFE: ["DynamicDisk"],
               0xFFFFFFFFFFFFFFFF: ["FixedDisk"]}
     chk.decide(table == want_t, "K-DISPATCH", "fixed-or-dynamic", ctx.func,
